@@ -307,10 +307,10 @@ Section Spec.
     intros m k k' v Hne. unfold OMap.get, OMap.set. simpl.
     rewrite (lookup_upsert_other _ _ _ _ Hne). reflexivity.
   Qed.
-  Theorem get_delete_same : forall m k order, NoDup (map fst (data m)) ->
+  Theorem get_delete_same : forall m k order,
     get (delete m k order) k = (zeroV (vtype m), false).
   Proof.
-    intros m k order _. unfold OMap.get, OMap.delete.
+    intros m k order. unfold OMap.get, OMap.delete.
     destruct (length (keys m) / 2 <=? length (remove k (data m)))%nat; simpl;
       rewrite lookup_remove_same; reflexivity.
   Qed.
@@ -320,9 +320,9 @@ Section Spec.
     destruct (length (keys m) / 2 <=? length (remove k (data m)))%nat; simpl;
       rewrite (lookup_remove_other _ _ _ Hne); reflexivity.
   Qed.
-  Theorem len_set : forall m k v, Inv m -> len (set m k v) = if mem keqb k (data m) then len m else S (len m).
+  Theorem len_set : forall m k v, len (set m k v) = if mem keqb k (data m) then len m else S (len m).
   Proof.
-    intros m k v _. unfold OMap.len, OMap.set. simpl. apply length_upsert.
+    intros m k v. unfold OMap.len, OMap.set. simpl. apply length_upsert.
   Qed.
   Theorem len_delete : forall m k order, Inv m -> len (delete m k order) = if mem keqb k (data m) then len m - 1 else len m.
   Proof.
@@ -452,9 +452,11 @@ Section Spec.
         exists s. split; [right; exact Hs | exact Hlv].
   Qed.
 
+  (* no premise on the body: the contract holds whatever operations it performs, even deletes whose
+     compaction order list is not a permutation of the live keys (body_ok above is what inv_apply_all
+     needs to carry Inv through the loop; the range contract does not need it) *)
   Theorem range_contract : forall m body, Inv m ->
     let fuel := S (length (keys m)) in
-    body_ok fuel m (keys m) body ->
     let vs := fst (range_loop fuel m (keys m) body) in
     (* each key at most once *)
     NoDup vs /\
@@ -467,7 +469,7 @@ Section Spec.
        come from the snapshot *)
     (forall k, In k vs -> In k (keys m)).
   Proof.
-    intros m body (Hk & Hd & Hl) fuel _ vs. subst vs fuel.
+    intros m body (Hk & Hd & Hl) fuel vs. subst vs fuel.
     split; [apply range_loop_NoDup; exact Hk|].
     split.
     - intros k Hlive. apply range_loop_complete; [lia | | exact Hlive].
